@@ -25,6 +25,7 @@ import (
 
 type zoneNode struct {
 	db      ethdb.Database
+	cr      *core.Core
 	sl      *core.Slice
 	hc      *core.HeaderChain
 	eng     consensus.Engine
@@ -36,6 +37,8 @@ type zoneNode struct {
 	nextDt       uint64
 	nextData     []byte
 	nextCoinbase common.Address
+	wantShare    bool // also submit a work share (a weaker sealing of the same pending header) to the node
+	shares       int
 }
 
 // zoneOpts: the node configuration dimensions the chain-level properties quantify over
@@ -84,11 +87,12 @@ func newZoneNode(db ethdb.Database, opts ...zoneOpts) (*zoneNode, error) {
 	if o.snapshots {
 		snapLimit = 16
 	}
-	sl, err := core.NewSlice(db, mcfg, pow, &tcfg, &lim, &chainCfg, []common.Location{loc}, 0, nil, eng, &core.CacheConfig{TrieCleanLimit: 16, TrieDirtyLimit: 16, TrieTimeLimit: time.Minute, SnapshotLimit: snapLimit}, vm.Config{}, gen, logger)
+	cr, err := core.NewCore(db, mcfg, pow, &tcfg, &lim, &chainCfg, []common.Location{loc}, 0, nil, eng, &core.CacheConfig{TrieCleanLimit: 16, TrieDirtyLimit: 16, TrieTimeLimit: time.Minute, SnapshotLimit: snapLimit}, vm.Config{}, gen, logger)
 	if err != nil {
 		return nil, fmt.Errorf("slice: %w", err)
 	}
-	n := &zoneNode{db: db, sl: sl, hc: sl.HeaderChain(), eng: eng[0], ghash: ghash, loc: loc, genesis: gen, opts: o, nextDt: 1, nextCoinbase: chainCoinbase}
+	sl := cr.Slice()
+	n := &zoneNode{db: db, cr: cr, sl: sl, hc: sl.HeaderChain(), eng: eng[0], ghash: ghash, loc: loc, genesis: gen, opts: o, nextDt: 1, nextCoinbase: chainCoinbase}
 	if !o.reopen {
 		if err := sl.NewGenesisPendingHeader(types.EmptyWorkObject(common.ZONE_CTX), ghash, ghash); err != nil {
 			return nil, fmt.Errorf("genesis pending header: %w", err)
@@ -174,6 +178,10 @@ func (n *zoneNode) finishBlock(wantOrder int) (*types.WorkObject, error) {
 	if os.Getenv("QVH_DEBUG") != "" {
 		fmt.Fprintln(os.Stderr, "mine took", time.Since(tm))
 	}
+	if n.wantShare {
+		n.wantShare = false
+		n.submitShare(ph, sealed)
+	}
 	// the sealed header together with the body the worker assembled for it (what ConstructLocalMinedBlock does
 	// for a header whose seal hash the worker has cached; here the miner also chose time and data)
 	return types.NewWorkObject(sealed.WorkObjectHeader(), sealed.Body(), nil), nil
@@ -217,5 +225,29 @@ func safeStop(n *zoneNode) {
 	defer func() { recover() }()
 	if n != nil && n.sl != nil {
 		n.sl.Stop()
+	}
+}
+
+// submitShare: another miner's sealing of the same pending header that reaches the work-share threshold (3 bits
+// below the block target) but not the block target; the node keeps it and its worker includes it as an uncle in one
+// of the next blocks.
+func (n *zoneNode) submitShare(ph, sealed *types.WorkObject) {
+	ws := types.CopyWorkObjectHeader(ph.WorkObjectHeader())
+	ws.SetPrimaryCoinbase(n.nextCoinbase)
+	ws.SetTime(sealed.WorkObjectHeader().Time())
+	target := new(big.Int).Div(common.Big2e256, ws.Difficulty())
+	shareTarget := new(big.Int).Lsh(target, uint(params.WorkSharesThresholdDiff))
+	for nonce := uint64(1 << 40); nonce < 1<<40+200_000; nonce++ {
+		ws.SetNonce(types.EncodeNonce(nonce))
+		hs, _ := n.eng.ComputePowHash(ws)
+		v := new(big.Int).SetBytes(hs.Bytes())
+		if v.Cmp(shareTarget) <= 0 && v.Cmp(target) > 0 {
+			if err := n.cr.SendWorkShare(ws); err == nil {
+				n.shares++
+			} else if os.Getenv("QVH_DEBUG") != "" {
+				fmt.Fprintln(os.Stderr, "work share refused:", err)
+			}
+			return
+		}
 	}
 }
